@@ -30,6 +30,7 @@ CONFIG = dict(
                  "at most one connection has a given mailbox selected at a time (multi-session views are C08's)",
                  "mailbox names are ASCII without '&' (modified UTF-7 is C16's)"],
     leanchecker=True,
+    model_is_reference=True,
     shrink={"hist": (4, ";")},
     timeout={"quick": 600, "thorough": 7200, "widen": 1800},
     level_text="proof for the semantic laws on the reference model M10 (UID monotonicity and non-reuse, UIDVALIDITY freshness, "
